@@ -52,6 +52,7 @@ import (
 	"errors"
 	"iter"
 	"log/slog"
+	"maps"
 	"net/http"
 	"time"
 
@@ -301,8 +302,37 @@ func (r *transport) handleCacheHit(
 	respNoCacheFieldsRaw, hasRespNoCache := ccResp.NoCache()
 	respNoCacheFieldsSeq, isRespNoCacheQualified := respNoCacheFieldsRaw.Value()
 
-	// RFC 8246: If response is fresh and immutable, always serve from cache unless request has no-cache
-	if !freshness.IsStale && ccResp.Immutable() && !ccReq.NoCache() {
+	// CalculateFreshness short-circuits a request max-age=0 without computing the
+	// age; compute it without that directive so that the checks below and the
+	// Age field are based on the real age. The response is stale for this request.
+	reqMaxAge, hasReqMaxAge := ccReq.MaxAge()
+	if hasReqMaxAge && reqMaxAge == 0 {
+		withoutMaxAge := maps.Clone(ccReq)
+		delete(withoutMaxAge, "max-age")
+		freshness = r.fc.CalculateFreshness(stored, withoutMaxAge, ccResp)
+		freshness.IsStale = true
+	}
+	_, hasMaxStale := ccReq.MaxStale()
+
+	// A response needs successful validation before reuse when it carries an
+	// unqualified no-cache, when it is stale and carries must-revalidate
+	// (max-stale does not override that), or when the request carries no-cache
+	// or a max-age the response exceeds (RFC 9111 §4.2.4, §5.2.1.4, §5.2.2.2, §5.2.2.4).
+	expired := freshness.Age.Value >= freshness.UsefulLife
+	mustValidate := (hasRespNoCache && !isRespNoCacheQualified) ||
+		(expired && ccResp.MustRevalidate()) ||
+		ccReq.NoCache() ||
+		(hasReqMaxAge && freshness.Age.Value > reqMaxAge && !hasMaxStale)
+
+	if ccReq.OnlyIfCached() {
+		// RFC 9111 §5.2.1.7: never contact the origin; either the stored response
+		// can be used without validation or the answer is 504.
+		if mustValidate {
+			r.logger.LogCacheMiss(req, urlKey, internal.MiscFunc(func() internal.Misc {
+				return internal.Misc{CCReq: ccReq, CCResp: ccResp, Stored: stored, Freshness: freshness}
+			}))
+			return make504Response(req)
+		}
 		return r.serveFromCache(
 			req,
 			urlKey,
@@ -313,12 +343,13 @@ func (r *transport) handleCacheHit(
 		)
 	}
 
-	if (freshness.IsStale && ccResp.MustRevalidate()) ||
-		(hasRespNoCache && !isRespNoCacheQualified) { // Unqualified no-cache: must revalidate before serving from cache
+	if mustValidate {
 		goto revalidate
 	}
 
-	if ccReq.OnlyIfCached() || (!freshness.IsStale && !ccReq.NoCache()) {
+	// RFC 8246: a fresh immutable response is served from cache; otherwise any
+	// response that is fresh (or whose staleness the request allows with max-stale).
+	if !freshness.IsStale {
 		return r.serveFromCache(
 			req,
 			urlKey,
@@ -329,10 +360,10 @@ func (r *transport) handleCacheHit(
 		)
 	}
 
-	if swr, swrValid := ccResp.StaleWhileRevalidate(); freshness.IsStale && swrValid {
-		age := freshness.Age.Value + r.clock.Since(freshness.Age.Timestamp)
+	if swr, swrValid := ccResp.StaleWhileRevalidate(); swrValid {
+		age := freshness.Age.Value + max(r.clock.Since(freshness.Age.Timestamp), 0)
 		staleFor := age - freshness.UsefulLife
-		if staleFor >= 0 && staleFor < swr {
+		if age >= freshness.Age.Value && staleFor >= 0 && staleFor < swr {
 			return r.handleStaleWhileRevalidate(req, stored, urlKey, freshness, ccReq)
 		}
 	}
@@ -395,8 +426,9 @@ func (r *transport) handleStaleWhileRevalidate(
 	//
 	// Open a discussion at github.com/bartventer/httpcache/issues if your use case requires
 	// guaranteed completion.
-	go r.backgroundRevalidate(req2, stored, urlKey, freshness, ccReq)
+	internal.SetAgeHeader(stored.Data, r.clock, freshness.Age)
 	internal.CacheStatusStale.ApplyTo(stored.Data.Header)
+	go r.backgroundRevalidate(req2, stored, urlKey, freshness, ccReq)
 	r.logger.LogCacheStaleRevalidate(req, urlKey, internal.MiscFunc(func() internal.Misc {
 		return internal.Misc{
 			CCReq:     ccReq,
